@@ -18,6 +18,7 @@ EXPLANATION = ("A Rust panic inside a primitive!() wrapper unwinds into an exter
                "Kani on fully symbolic arguments and must not panic, trap on overflow or exhibit UB; string arguments are bounded (<= 2 chars). "
                "Plus Verus contracts on StackFrame::exit_scope (frame reset never pops a locked frame).")
 ASSUMPTIONS = [
+    "io unit: Vec::with_capacity is given its documented contract (panics if the capacity exceeds isize::MAX bytes); File read/write are assumed panic-free; the Mutex<Option<File>> is modelled by R-lock + the expansion of the local `unwrap_file!` macro",
     "random unit: rand's `random_range` is given its documented contract (panics iff the range is empty; result in range) as an assumed dependency contract",
     "debug-profile semantics (overflow checks on), the profile the pinned test suite is built with",
     "alloc::fmt::format stubbed to return an empty String in harnesses whose error path formats a message (format! is intractable for CBMC)",
@@ -204,6 +205,10 @@ def v(unit, fn, clause, source):
 
 
 STATIC = [
+    dict(engine="verus", unit="io", function="write_slice_file", name="C06/io/write_slice_file", source="src/std_lib/io.rs::write_slice_file",
+         clause="std.io write_slice: for every (start, end) the slice expression buf[start..end] is in bounds or the call is refused with an error value"),
+    dict(engine="verus", unit="io", function="read_file", name="C06/io/read_file", source="src/std_lib/io.rs::read_file",
+         clause="std.io read_file: for every count (a negative Int arrives as a huge usize) the buffer allocation never hits Vec's documented capacity-overflow panic"),
     dict(engine="verus", unit="random", function="gen_int_range", name="C06/random/gen_int_range", source="src/std_lib/random.rs::gen_int_range",
          clause="std.random gen_int_range never reaches the documented panic of rand's random_range (empty range) for any pair of Ints"),
     v("stack", "reset_stack", "resetting the stack after a failed evaluation removes exactly the frames above `level`, top first, never one below it, and touches nothing else of the frame list", "vm/src/thread.rs::reset_stack"),
